@@ -69,6 +69,10 @@ theorem writeShortAscii_total {s : Bytes} (ha : isAscii s = true) (h : IntFits 2
   simp only [writeShortAscii, ha, if_true]
   exact writeShortBytes_total h
 
+theorem writeShortText_total {s : Bytes} (h : IntFits 2 (s.length : Int)) : ∃ x, writeShortText (some s) = .ok x := by
+  simp only [writeShortText]
+  exact writeShortBytes_total h
+
 theorem writeShortBytes_opt_total {b : Option Bytes} (h : Codec.nullableString.valid b = true) :
     ∃ x, writeShortBytes b = .ok x := by
   cases b with
@@ -238,13 +242,13 @@ theorem offsetFetch_total {cid g : Bytes} {corr : Int} {ps : List OffsetFetchReq
     (hnd : (ps.map (fun p => (p.topic, p.partition))).Nodup)
     (hvalid : (Spec.request Spec.offsetFetchRequest).valid
       (hdr 9 1 corr cid, g, (regroup l).map (fun e => (e.1, e.2.map (·.1)))) = true)
-    (hg : isAscii g = true) (hascii : ∀ e ∈ regroup l, isAscii e.1 = true) :
+    (hascii : ∀ e ∈ regroup l, isAscii e.1 = true) :
     ∃ frame, encodeOffsetFetchRequest cid corr (some g) ps = .ok frame := by
   have hw := seq_valid (a := Spec.header) (b := Spec.offsetFetchRequest) hvalid
   have b1 := seq_valid (a := Codec.string) hw.2
   have hv' := map_valid_fst b1.2
   obtain ⟨hd, x1⟩ := encodeHeader_total (key := 9) hw.1
-  obtain ⟨gb, x2⟩ := writeShortAscii_total hg (lenPrefixed_valid b1.1)
+  obtain ⟨gb, x2⟩ := writeShortText_total (lenPrefixed_valid b1.1)
   obtain ⟨body, x3⟩ := topics_total OffsetFetchReq.topic OffsetFetchReq.partition (fun _ => some ())
     (int32 ⊗ Codec.unit) offsetFetchPartEntry
     (by
@@ -277,15 +281,15 @@ theorem offsetCommit_total {cid g c : Bytes} {corr gen : Int} {ps : List OffsetC
     (hk : keyed OffsetCommitReq.topic OffsetCommitReq.partition (fun p => some (p.offset, p.timestamp, p.metadata)) ps = some l)
     (hnd : (ps.map (fun p => (p.topic, p.partition))).Nodup)
     (hvalid : (Spec.request Spec.offsetCommitRequest).valid (hdr 8 1 corr cid, g, gen, c, regroup l) = true)
-    (hg : isAscii g = true) (hc : isAscii c = true) (hascii : ∀ e ∈ regroup l, isAscii e.1 = true) :
+    (hascii : ∀ e ∈ regroup l, isAscii e.1 = true) :
     ∃ frame, encodeOffsetCommitRequest cid corr (some g) gen (some c) ps = .ok frame := by
   have hw := seq_valid (a := Spec.header) (b := Spec.offsetCommitRequest) hvalid
   have b1 := seq_valid (a := Codec.string) hw.2
   have b2 := seq_valid (a := int32) b1.2
   have b3 := seq_valid (a := Codec.string) b2.2
   obtain ⟨hd, x1⟩ := encodeHeader_total (key := 8) hw.1
-  obtain ⟨gb, x2⟩ := writeShortAscii_total hg (lenPrefixed_valid b1.1)
-  obtain ⟨cb, x4⟩ := writeShortAscii_total hc (lenPrefixed_valid b3.1)
+  obtain ⟨gb, x2⟩ := writeShortText_total (lenPrefixed_valid b1.1)
+  obtain ⟨cb, x4⟩ := writeShortText_total (lenPrefixed_valid b3.1)
   obtain ⟨body, x3⟩ := topics_total OffsetCommitReq.topic OffsetCommitReq.partition
     (fun p => some (p.offset, p.timestamp, p.metadata))
     (int32 ⊗ int64 ⊗ int64 ⊗ nullableString) offsetCommitPartEntry
@@ -323,10 +327,6 @@ theorem offsetCommit_total {cid g c : Bytes} {corr gen : Int} {ps : List OffsetC
 
 /-! ## requests without topic grouping -/
 
-theorem writeShortText_total {s : Bytes} (h : IntFits 2 (s.length : Int)) : ∃ x, writeShortText (some s) = .ok x := by
-  simp only [writeShortText]
-  exact writeShortBytes_total h
-
 theorem metadata_total {cid : Bytes} {corr : Int} {topics : List (Option Bytes)} {ts : List Bytes}
     (ht : topics.mapM id = some ts)
     (hvalid : (Spec.request Spec.metadataRequest).valid (hdr 3 0 corr cid, ts) = true)
@@ -352,12 +352,11 @@ theorem metadata_total {cid : Bytes} {corr : Int} {topics : List (Option Bytes)}
   exact ⟨_, rfl⟩
 
 theorem findCoordinator_total {cid g : Bytes} {corr : Int}
-    (hvalid : (Spec.request Spec.findCoordinatorRequest).valid (hdr 10 0 corr cid, g) = true)
-    (hg : isAscii g = true) :
+    (hvalid : (Spec.request Spec.findCoordinatorRequest).valid (hdr 10 0 corr cid, g) = true) :
     ∃ frame, encodeConsumerMetadataRequest cid corr (some g) = .ok frame := by
   have hw := seq_valid (a := Spec.header) (b := Spec.findCoordinatorRequest) hvalid
   obtain ⟨hd, x1⟩ := encodeHeader_total (key := 10) hw.1
-  obtain ⟨gb, x2⟩ := writeShortAscii_total hg (lenPrefixed_valid hw.2)
+  obtain ⟨gb, x2⟩ := writeShortText_total (lenPrefixed_valid hw.2)
   unfold encodeConsumerMetadataRequest
   simp only [hdrKey_encode_consumermetadata_request, hdrVer_encode_consumermetadata_request] at x1 ⊢
   rw [x1]
